@@ -1,13 +1,15 @@
 import SlipVerif.Model.Num
 import SlipVerif.Driver.Util
 --! namespace: num
-/- line protocol for C05:  num <op> <operand>*   operands: q:<n>[/<d>] | d:<hexbits> | s:<hexbits> | l:<prec>:<n>[/<d>] -/
+/- line protocol for C05:  num <op> <operand>*   operands: q:<n>[/<d>] | b:<n> | r:<n> | d:<hexbits> | s:<hexbits> | l:<prec>:<n>[/<d>] -/
 namespace SlipVerif.Driver.Num
 open SlipVerif.Num SlipVerif.Driver
 
 def parseOperand (s : String) : Option Rat :=
   match s.splitOn ":" with
   | ["q", v] => parseRat? v
+  | ["b", v] => parseRat? v   -- an integer held in a bignum object (any magnitude): same value
+  | ["r", v] => parseRat? v   -- an integer held in a ratio object with denominator 1: same value
   | ["d", h] => (parseHexNat? h).bind ofBits64
   | ["s", h] => (parseHexNat? h).bind ofBits32
   | ["l", _prec, v] => parseRat? v   -- long-float: exact dyadic value, decoded by the harness
@@ -85,6 +87,19 @@ def handle (op : String) (args : List String) : String :=
     | "zerop", [a] => okBool (zerop a)
     | "plusp", [a] => okBool (plusp a)
     | "minusp", [a] => okBool (minusp a)
+    | "logcount", [a] => if a.den = 1 then okRat (logcount a.num) else showErr .typeErr
+    | "integer-length", [a] => if a.den = 1 then okRat (integerLength a.num) else showErr .typeErr
+    | "logbitp", [i, a] => if i.den = 1 ∧ a.den = 1 then
+          (match logbitp i.num a.num with
+           | .ok b => okBool b
+           | .error e => showErr e)
+        else showErr .typeErr
+    | "evenp", [a] => if a.den = 1 then okBool (evenp a.num) else showErr .typeErr
+    | "oddp", [a] => if a.den = 1 then okBool (oddp a.num) else showErr .typeErr
+    | "signum", [a] => okRat (signum a)
+    | "numerator", [a] => okRat (numerator a)
+    | "denominator", [a] => okRat (denominator a)
+    | "rational", [a] => okRat a
     | "value", [a] => okRat a
     | _, _ => "bad-request op"
 
